@@ -17,6 +17,7 @@ PROPS = {
     'C07': {'units': ['fri', 'shape'], 'kani': [], 'only': {'shape': r'verify_fri_circuit'}, 'exclude': r'possible (bit shift|arithmetic)'},
     'C05': {'units': ['chal'], 'kani': [], 'exclude': r'canonical_width'},
     'C06': {'units': ['bind'], 'kani': []},
+    'C17': {'units': ['cache'], 'kani': []},
     'C12': {'units': ['bits', 'chal'], 'kani': [], 'only': {'chal': r'canonical_width'}},
     'C15': {'units': ['shape'], 'kani': []},
     'C13': {'units': ['sym'], 'kani': []},
@@ -172,7 +173,7 @@ META['C09'] = {
 NOT_APPLICABLE = {
     'C01': 'whole-verifier equivalence with the external native verifier (p3-uni-stark / p3-batch-stark): needs a relational spec of ~1.5 kLoC of dependency code across four generic traits; no per-function contract within reach expresses it. Its parts are decided under C05/C07/C08/C13/C14/C15/C20.',
 }
-for _p in ['C10', 'C14', 'C17', 'C18']:
+for _p in ['C10', 'C14', 'C18']:
     NOT_APPLICABLE.setdefault(_p, 'not reached yet: kernel designed in DESIGN.md §5 but its contracts are not built; not claimed')
 META['C13'] = {
     'technique': 'Verus contracts on the extracted real symbolic compiler (work-stack walk) and the alpha-folding loops',
@@ -196,6 +197,18 @@ META['C06'] = {
     'note': 'Assumed (trusted): which outputs of a permutation row are created on the witness bus (ext_perm_post / base_perm_post); taint rules of builder primitives, recompose and the base-coefficient '
             'decomposition; D=1 path: no foreign sponge-table row between two permutations of one challenger; configuration geometry fits WIDTH/RATE; permutation tables enabled. '
             'KNOWN FINDING C06-ext-capacity-unbound: on the D>1 path the capacity limbs handed back by the wrappers are not exposed, so capacity_outputs_pinned fails (forged proof in findings/).',
+}
+
+META['C17'] = {
+    'technique': 'Verus contracts on the extracted real cache-guard / cache-fill blocks of the recursion layer provers, ghost ownership tags on cached data',
+    'text': 'Deductive check of the cache half of the property: every value the layer provers handle carries a ghost tag saying which circuit (and which configuration) it belongs to; a layer output '
+            'is coherent when its proof, its preprocessed data and its configuration all belong to the call. Proved: aggregation_circuit_fingerprint reads all four counters; the aggregation guard '
+            'compares the stored fingerprint with this circuit\'s; a filled slot always stores the fingerprint of the circuit its data was prepared for (representation invariant, kept by the fill block); '
+            'the fill block stores data of this circuit and configuration; without a cache the slot is untouched. The obligations the property needs at a cache hit -- same circuit, same configuration -- '
+            'are stated where the cached data is used and are the known findings below.',
+    'note': 'Layer-chaining half of C17 (a layer output is a valid input of the next layer, for every chain) is a whole-pipeline statement about prover and verifier: not expressible as a function contract here. '
+            'All callees of the cache blocks are ASSUMED stubs that only say whose data they return; `coherent` is the meaning given to the tags. '
+            'KNOWN FINDINGS (forged runs in findings/C17_cache_reuse_test.rs): C17-aggregation-fingerprint-collision, C17-aggregation-config-not-keyed, C17-next-layer-unguarded.',
 }
 
 NOT_APPLICABLE['C04'] = ('soundness of the STARK / LogUp / FRI argument behind "an accepted proof attests a satisfying assignment" is a cryptographic statement no per-function contract here can state; '
